@@ -947,6 +947,12 @@ def analyse(ctx, cfg, facts, raw_facts, is_view):
                     ctx.ok("K4.short-circuit", "%s: predicate under short-circuiting %s (%s)" % (name, cons_path.rsplit("::", 1)[-1], cfg), nontrivial=True)
                     m = re.search(r"::(any|all)$", cons_path)
                     zero[abi] = {"any": False, "all": True}[m.group(1)] if m else None
+                    if re.search(r"::(find|position|rposition|try_fold|try_for_each)$", cons_path):
+                        # the consumer stops at the first element its closure singles out; WHICH verdict that is, and what
+                        # the operator answers then and at exhaustion, is decided by the closure and by what is done with
+                        # the consumer's result — no reading of that yet: not a pass
+                        ctx.unread("K4.decided-constant", "%s: the decided path returns %s (%s)" % (name, decided_want, cfg),
+                                   "%s: which verdict stops Iterator::%s, and the results on stopping and at exhaustion, were not read" % (name, cons_path.rsplit("::", 1)[-1]), where=b.where(abi), fn=b.key)
                 elif cons_path == "":
                     ctx.unread("K4.short-circuit", "%s: predicate site %s (%s)" % (name, ps.where(), cfg), "the iterator built by %s is consumed in a way that was not read" % apath.rsplit("::", 1)[-1], where=ps.where(), fn=ps.body.key)
                 else:
